@@ -90,3 +90,25 @@ for d in sorted(glob.glob(os.path.join(ROOT, "seeded", "*"))):
             res.append("%s: missed" % pid)
     cell = lambda s: (s or "").replace("|", "\\|").replace("\n", " ")[:300]
     print("| %s | %s | %s | %s |" % (sid, cell(m.get("summary")), cell(m.get("needs_to_manifest")), "; ".join(res) or "not run yet"))
+
+
+print("\n### 11.5 Axioms per property file (from `Print Assumptions` under every theorem, re-collected now)\n")
+print("`Print Assumptions` lists two kinds of entries: *primitive declarations* of Coq's native 63-bit integers and binary64 floats (`PrimInt63.int`, `PrimFloat.float`, `add`, `mul`, `ltb`, `of_uint63` … — types and operations implemented by the kernel/VM, not propositions) and *logical axioms* declared by the standard library. Only the latter are assumptions in the logical sense; both are listed.\n")
+print("| file | theorems closed under the global context | primitive declarations used | logical axioms (all from the Coq standard library / Flocq's use of Reals) |")
+print("|---|---|---|---|")
+LOGICAL = re.compile(r"_spec$|_spec\b|classic|sig_forall_dec|sig_not_dec|functional_extensionality|Prim2SF|SF2Prim|proof_irrelevance|JMeq|eq_rect_eq|_valid$|_equiv|constructive_|Rabst|Rrepr|Rquot|completeness|archimed|total_order")
+allax = set()
+for p in props:
+    pid = p["id"]
+    f = os.path.join(ROOT, "coq", "Properties", pid + ".v")
+    if not os.path.exists(f):
+        continue
+    r = subprocess.run(["coqc", "-Q", ".", "SG", "-w", "-all", "Properties/%s.v" % pid], cwd=os.path.join(ROOT, "coq"), stdout=subprocess.PIPE, stderr=subprocess.STDOUT)
+    out = r.stdout.decode("utf-8", "replace")
+    closed = out.count("Closed under the global context")
+    names = set(m.group(1) for m in re.finditer(r"^([A-Za-z_][\w.']*)\s*:", out, re.M)) - {"Axioms"}
+    logical = sorted(n for n in names if LOGICAL.search(n))
+    prim = sorted(n for n in names if not LOGICAL.search(n))
+    allax |= set(logical)
+    print("| Properties/%s.v | %d | %s | %s |" % (pid, closed, (", ".join(prim)[:140] + (" …" if len(", ".join(prim)) > 140 else "")) or "—", ", ".join(logical) or "none"))
+print("\nUnion of logical axioms over all property files: " + (", ".join("`%s`" % a for a in sorted(allax)) or "none") + ".")
